@@ -1,4 +1,5 @@
 SPECIFICATION Spec
 INVARIANT Sane
+INVARIANT OptionalAgree
 INVARIANT EmitInv
 CHECK_DEADLOCK FALSE
